@@ -149,9 +149,14 @@ impl<'a> G<'a> {
     }
 
     fn string(&mut self, name: bool) -> String {
-        if name && !self.cfg.safe_names && self.r.chance(3) {
-            // untagged odd member names (duplicates simply overwrite): empty, blank, JSONPath-ish
-            return (*self.r.pick(&["", " ", "0", "$", "~", ".", "[0]", "a.b", "$.x"])).to_string();
+        if name && self.r.chance(3) {
+            // untagged odd member names (duplicates simply overwrite): empty, blank, JSONPath-ish;
+            // under Custom strategies only those free of '.' and '[' (a member called "$" is
+            // addressed as "$.$", its child x as "$.$.x")
+            if self.cfg.safe_names {
+                return (*self.r.pick(&[" ", "0", "$", "~", "$ref", "$id", "$$", "*", "-1"])).to_string();
+            }
+            return (*self.r.pick(&["", " ", "0", "$", "~", ".", "[0]", "a.b", "$.x", "$ref"])).to_string();
         }
         if name && self.r.chance(3) {
             // names that only LOOK like reserved / registered ones (none of them is reserved)
@@ -318,6 +323,8 @@ impl<'a> G<'a> {
                     Value::String((*self.r.pick(&[
                         "...", "_sd", "_sd_alg", "sha-256", "cnf", "jwk", "kb+jwt", "sd_hash", "null", "true", "false", "0", "[]", "{}", "~", ".", "$", "$.a",
                         "\"", "\\", "\\u0000", "e30", "W10", "eyJhbGciOiJub25lIn0", "a~b", "a.b.c", "=",
+                        // JSON text that, if parsed, would contain reserved member names
+                        "{\"_sd\":[\"abc\"]}", "[{\"...\":\"x\"}]", "{\"...\":1,\"_sd_alg\":\"md5\"}", "[\"s\",\"_sd\",1]", "12345", "-7", "1e5",
                     ]))
                     .to_string())
                 } else {
